@@ -295,6 +295,21 @@ Theorem pq_resync_on_empty : forall c k s s' z,
   size s' = 0 /\ (0 < waiting s -> tok s' = true).
 Proof. exact pq_resync_on_empty_l. Qed.
 
+(* A REFUSED OFFER CHANGES NOTHING, whatever the cause.  offer_refused_iff covers queue-full / too-large / invalid;
+   this covers the persistent queue's remaining refusal causes: Encoding.Marshal fails or the storage write fails
+   (label LOfferF, from ANY state).  The capacity loop runs first (full => ErrQueueIsFull as usual); past it the
+   error is returned and size, queue contents, histories, the cond's state, parked consumers and the pool are
+   untouched — only the producer's own result is recorded. *)
+Theorem faulty_offer_changes_nothing : forall c s p sz k s' z,
+  step c s (LOfferF p sz k) = Some (s', z) ->
+  kind c = Pers /\ lock s = Free /\
+  (exists r, s' = setp p (PRet r) s /\ refused_result r = true) /\
+  (size s + sz > cap c -> z = c_full /\ blocking c = false /\ pget p (prods s') = Some (PRet RFull)) /\
+  (size s + sz <= cap c -> z = k /\ pget p (prods s') = Some (PRet (RErr k))) /\
+  size s' = size s /\ items s' = items s /\ inflight s' = inflight s /\ acc s' = acc s /\ hand s' = hand s /\
+  waiting s' = waiting s /\ tok s' = tok s /\ cons s' = cons s /\ held s' = held s /\ pool s' = pool s.
+Proof. exact faulty_offer_changes_nothing_l. Qed.
+
 Print Assumptions mq_size_exact.
 Print Assumptions pq_size_bounds.
 Print Assumptions offer_refused_iff.
@@ -322,3 +337,4 @@ Print Assumptions cond_api_invariant.
 Print Assumptions broadcast_step.
 Print Assumptions consumer_no_lost_wakeup.
 Print Assumptions pq_resync_on_empty.
+Print Assumptions faulty_offer_changes_nothing.
